@@ -1847,6 +1847,8 @@ def _(ex, a):
 # ------------------------------------------------------------------ sub-slices (v[a..b]) and Vec capacity
 def _range_bounds(ex, rng, n):
     k = rng.kind.split('::')[-1]
+    if k == 'const' and rng.f and str(rng.f[0]).strip().endswith('RangeFull'):
+        k = 'RangeFull'              # `const RangeFull`: the only range that is a unit value
     if k == 'RangeFull':
         return 0, n
     if k == 'RangeFrom':
